@@ -340,8 +340,85 @@ def run(ctx):
                                        {'kind': 'dlname', 'data': d, 'impl': impl, 'required': v})
     samples.append({'op': 'dlname', 'data': datas[-1]})
 
+    # ---- (d) the glue: resolve_shlibs with .la and plain requests, ldd output through subprocess
+    import types
+    n_glue = ctx.n(400, 15000)
+    glue = []
+    ladir = os.path.join(ctx.scratch, 'la')
+    os.makedirs(ladir)
+    while len(glue) < n_glue:
+        c = gen_case(rng)
+        c['files'] = []
+        la_names, la_datas = [], []
+        for i in range(rng.choice([0, 0, 1, 1, 2])):
+            nm = os.path.join(ladir, 'lib%s%d.la' % (rng.choice(['x', 'y', 'foo']), i))
+            v = rng.choice(['libx.so.0', 'liby-1.0.so.3', 'lib+z.so', '', 'a/b.so'])
+            data = rng.choice(["# gen\n", ""]) + rng.choice(["dlname='%s'\n" % v, "dlname='%s'\n" % v,
+                                                             "old_library='libx.a'\n"]) + "libdir='/usr/lib'\n"
+            la_names.append(nm)
+            la_datas.append(data)
+        libs = list(c['libs'])
+        for nm in la_names:
+            libs.insert(rng.randint(0, len(libs)), nm)
+        glue.append({'libs': libs, 'files': [], 'output': c['output'], 'la_names': la_names, 'la_datas': la_datas})
+    model = ctx.driver.batch([dict(op='c19.resolve_shlibs', **g) for g in glue])
+    opts = types.SimpleNamespace(nolibtool=True, ldd_wrapper=None, libtool_path=None)
+    real_subprocess = shlibs.subprocess
+    n_gl = 0
+    cwd = os.getcwd()
+    os.chdir(scratch)
+    try:
+        for f in os.listdir('.'):
+            os.unlink(f)
+        for g, m in zip(glue, model):
+            for nm, data in zip(g['la_names'], g['la_datas']):
+                with open(nm, 'w', encoding='utf-8', newline='') as f:
+                    f.write(data)
+            shlibs.subprocess = types.SimpleNamespace(check_output=lambda args, _o=g['output']: _o.encode('utf-8'))
+            try:
+                try:
+                    impl = {'ok': shlibs.resolve_shlibs(opts, types.SimpleNamespace(args=['/bin/true']), list(g['libs']))}
+                except SystemExit as e:
+                    impl = {'exit': str(e)}
+            finally:
+                shlibs.subprocess = real_subprocess
+            cnt.hit('glue:' + ('ok' if 'ok' in impl else 'exit'))
+            cnt.case(['g', g], nontrivial=bool(g['libs']))
+            if impl != model_to_impl_shape(m):
+                n_gl += 1
+                if n_gl <= 3:
+                    ctx.broken.append('correspondence c19.resolve_shlibs differs: case=%r impl=%r model=%r' % (g, impl, m))
+            # statement oracle: every .la with a well-formed dlname contributes it; the others as (b)
+            plain = [l for l in g['libs'] if not l.endswith('.la')]
+            spec = spec_resolve(plain, [], g['output']) if plain else ('ok', [])
+            want_la = []
+            in_scope = spec is not None
+            la_map = dict(zip(g['la_names'], g['la_datas']))
+            for nm in [l for l in g['libs'] if l.endswith('.la')]:
+                data = la_map[nm]
+                ment = [l for l in data.split('\n') if 'dlname=' in l]
+                if len(ment) == 1 and ment[0].startswith("dlname='") and ment[0].endswith("'") and \
+                        ment[0][8:-1] and all(ch in LIBCHARS + '.+' for ch in ment[0][8:-1]):
+                    want_la.append(ment[0][8:-1])
+                else:
+                    in_scope = False     # archive without a plain dlname: outside the quantifier
+            if in_scope:
+                cnt.hit('glue:oracle')
+                if spec[0] == 'ok':
+                    good = impl.get('ok') == want_la + spec[1]
+                else:
+                    good = 'exit' in impl and all(x in impl['exit'] for x in spec[1])
+                if not good:
+                    ctx.report_failure('glue:' + json.dumps(g, sort_keys=True),
+                                       'resolve_shlibs gives %r; the property requires %r + %r for %r'
+                                       % (impl, want_la, spec, g),
+                                       {'kind': 'glue', 'case': g, 'impl': impl, 'required': [want_la, spec]})
+    finally:
+        os.chdir(cwd)
+    samples.append({'op': 'resolve_shlibs', 'case': glue[-1]})
+
     ctx.coverage.update({
-        'evaluations': len(pairs) + len(cases) + len(datas) + cnt.counts.get('search:mutant', 0),
+        'evaluations': len(pairs) + len(cases) + len(datas) + len(glue) + cnt.counts.get('search:mutant', 0),
         'distinct_nontrivial': cnt.n_distinct(),
         'rule': 'seeded generators: (name, word) pairs built around lib<name> with separator / continuation / '
                 'look-alike-directory variants; ldd/otool/noise listings with related names, duplicates, existing '
